@@ -159,7 +159,8 @@ def correspondence(ctx, model_ok):
 
 
 def oracle_cases(ctx, corr):
-    return list(getattr(corr, '_cases', []))
+    # integer wrappers on operands of 32-64 bits (values >= 2^53) are oracle-only: they cannot be tabulated
+    return [dict(c) for c in fc.WIDE_CASES] + list(getattr(corr, '_cases', []))
 
 
 def oracle(case):
